@@ -10,6 +10,7 @@ from pyvc.interp import Program
 from pyvc import solve, models
 from contracts import lattice as K, lattice_vc as V, prune as P, orchestration as OC, match_fn as MF, ne_levels as NL
 from rtc import runner, suites
+from contracts import maps as _M
 
 
 def catalog(prog, tier):
@@ -35,6 +36,7 @@ def catalog(prog, tier):
         'only_nodes': lambda: [OC.vc_only_nodes(prog, aj) for aj in (False, True)] + [OC.vc_only_nodes(prog, False, walk=True)],
         'get_path': lambda: [OC.vc_get_path(prog, on, oc, sd) for on in (True, False) for oc in (True, False) for sd in ('none', 'empty', 'states')] +
                             [OC.vc_path_pred_props(prog, w) for w in (False, True)],
+        'inmem_nbrs': lambda: [_M.vc_inmem_nodes_nbrto(prog)] + [_M.vc_edges_nbrto(prog, 'InMemMap', l) for l in ('none', 'empty', 'some')] + [_M.vc_edges_nbrto(prog, 'BaseMap', 'none')],
         'widen': lambda: [MF.vc_increase_width(prog, ow) for ow in (False, True)],
         'ne_levels': lambda: [NL.vc_ne_levels(prog, w, ex) for w in (False, True) for ex in (False, True)],
         'visited': lambda: [NL.vc_node_in_prev_ne(prog, k) for k in ('edge', 'node')],
